@@ -41,7 +41,7 @@ LAYOUTS = {
         # README.md: two different patterns on ONE line, the one configured first standing to the right
         files={"README.md": ["pep={pep440_version};", "ver={version};"], "src/__init__.py": ['__version__ = "{version}"']},
         content={"README.md": "# demo\ninstall ver=v202001.1001-beta; (pep=202001.1001b0;) today\nend\n", "src/__init__.py": '__version__ = "v202001.1001-beta"\n'},
-        u=[], u2=["--tag", "rc"], u3=["--tag", "final"], fail=["--set-version", "v201901.0001"],
+        u=[], u2=["--tag", "rc"], u3=["--tag", "final"], fail=["--set-version", "v201901.0001"], gitfile=True,
     ),
     "semver": dict(
         pattern="MAJOR.MINOR.PATCH[-TAGNUM]", start="1.2.3", date=dt.date(2021, 6, 1),
@@ -107,7 +107,7 @@ def make_repo(layout, d):
         shutil.rmtree(d)
     os.makedirs(d)
     os.chdir(d)
-    gw.init()
+    gw.init(separate=bool(L.get("gitfile")))  # (one layout keeps the repository data outside the work tree: `.git` is a file)
     files = {"bumpver.toml": config_text(L).encode(), "notes.txt": b"unrelated\n"}
     for k, v in L["content"].items():
         files[k] = v.encode()
@@ -309,6 +309,7 @@ def expand_default(st, layout, date, history, root, depth_tag):
     finally:
         os.chdir(here)
         shutil.rmtree(snap, ignore_errors=True)
+        shutil.rmtree(snap + ".gitstore", ignore_errors=True)
 
 
 def run_chunk(chunk):
